@@ -82,6 +82,10 @@ def run(ctx):
              "pops leaves the operands behind); decided for the loop-free handlers by enumerating "
              "their paths, error exits excluded; Runtime::input is the reviewed state machine")
     rule_h(ctx, cr)
+    ctx.rule("C18.j", "DATA lines execute as nothing: transform_to_data empties the fragment's code "
+             "when it moves the constant to the data segment (see C09.a)")
+    from rules import c09
+    c09.rule_transform_consumes(ctx, cr, "C18.j")
     ctx.rule("C18.i", "single-opcode statements are stack-neutral: the number of operands the "
              "generator emits before the opcode (expression fragments, literals, variable reads, "
              "minus stores) equals what the opcode's VM handler takes off the stack on its "
